@@ -1131,8 +1131,10 @@ theorem encodeHost_idn (o : Oracles) (h raw : Str) (v b : Bool) (hna : isAscii h
     (henc : idnaEncode o h = .ok raw) (hreg : notRegName raw = false) :
     encodeHost o h v = .ok raw := by
   have hr : ipRes h = none := by simp [ipRes, hnoip]
+  -- reg-name text holds no ':': the IDNA answer is returned as such (no re-entry, fix 3fbf5b4)
+  have h58 : mem 58 raw = false := notRegName_false_no_colon hreg
   rw [encodeHost_eq, hlook]
-  simp only [bind, Except.bind, hr, ite_self, regPath, hna, Bool.false_eq_true, ↓reduceIte, henc, hreg,
+  simp only [bind, Except.bind, hr, ite_self, regPath, hna, Bool.false_eq_true, ↓reduceIte, henc, hreg, h58,
     Bool.and_false, pure, Except.pure]
 
 /-- an internationalised host `h` (not ASCII, not an IP literal) whose A-label form is `raw`:
